@@ -87,6 +87,7 @@ func resolveNode(maxDepth int, db shared.DBNodeMap, heights map[string]int, name
 func Resolve(c Config, db shared.DBNodeMap) (shared.DBNodeMap, error) {
 	heights := make(map[string]int, len(db))
 	for name := range db {
+		verifVisit(name)
 		if _, err := resolveNode(c.MaxDepth, db, heights, name, 0); err != nil {
 			return db, err
 		}
